@@ -1138,7 +1138,9 @@ pub fn run(sc: &Scenario) -> Outcome {
                 // everything either side sent up to the crash instant (the FIN / RST of the crash
                 // included) has arrived by step `flushed`
                 let rst_by = cr + lm.steps(v, *cr).1;
-                let flushed = (cs.min(*cr).max(1)..=*cr).map(|s| lm.arrives_by(v, s)).max().unwrap_or(0).max(rst_by);
+                // (the accepting end may have written from the step in which the SYN arrived, one step
+                // before the connector saw its connect return)
+                let flushed = (j_lo.min(cs).min(*cr).max(1)..=*cr).map(|s| lm.arrives_by(v, s)).max().unwrap_or(0).max(rst_by);
                 let deadline = flushed + 3;
                 if deadline <= r.total {
                     // reader
